@@ -159,8 +159,16 @@ ok_I = np.allclose(ib[0], 4 * np.pi * r ** 2 * P0, rtol=1e-12, atol=1e-12)
 nz = P0 != 0
 f_b = P0[None, :] * (1 + sum(b[None, :] * leg(n, x) for b, n in zip(ib[1:], res.orders[1:])))
 scale = 1 + np.abs(cn).sum(axis=0)[None, :] * 10
+from scipy.ndimage import uniform_filter1d as _uf
+harm = res.harmonics()
+ok_w = True
+for w in (2, 3, 5):
+    ibw = res.Ibeta(w); sm = _uf(harm, w, axis=1, mode='nearest')
+    okb = np.abs(sm[0]) > 1e-6 * (1 + np.abs(harm[0]).max())
+    ok_w = ok_w and np.allclose(ibw[0], 4 * np.pi * r ** 2 * P0, rtol=1e-12, atol=1e-12) and \
+        np.allclose((ibw[1:] * sm[0][None, :])[:, okb], sm[1:][:, okb], rtol=1e-9, atol=1e-9 * (1 + np.abs(harm).max()))
 ok = (np.all(np.abs(f_cs - f_cos) <= 1e-9 * scale) and np.all(np.abs(f_h - f_cos) <= 1e-9 * scale)
-      and ok_I and np.all(np.abs(f_b - f_cos)[:, nz] <= 1e-9 * scale[:, nz]))
+      and ok_I and ok_w and np.all(np.abs(f_b - f_cos)[:, nz] <= 1e-9 * scale[:, nz]))
 print('C15 representations', 'agree' if ok else 'DISAGREE', 'order', order, 'odd', odd)
 sys.exit(0 if ok else 1)
 '''
@@ -224,6 +232,21 @@ def search_repr(ctx, rng, budget):
             bad.append('I=4pi r^2 P0')
         if not np.all(np.abs(f_b - f_cos)[:, nz] <= 1e-9 * scale[:, nz]):
             bad.append('Ibeta')
+        # every window size: I stays 4 pi r^2 P0 (not smoothed), beta_n = <P_n> / <P0> (moving averages)
+        from scipy.ndimage import uniform_filter1d as _uf
+        harm = res.harmonics()
+        for w in (2, 3, 5):
+            with warnings.catch_warnings(), np.errstate(all='ignore'):
+                warnings.simplefilter('ignore')
+                ibw = res.Ibeta(w)
+                sm = _uf(harm, w, axis=1, mode='nearest')
+            if not np.allclose(ibw[0], 4 * np.pi * r ** 2 * P0, rtol=1e-12, atol=1e-12):
+                bad.append('I=4pi r^2 P0 (window %d)' % w)
+                break
+            okb = np.abs(sm[0]) > 1e-6 * (1 + np.abs(harm[0]).max())
+            if not np.allclose((ibw[1:] * sm[0][None, :])[:, okb], sm[1:][:, okb], rtol=1e-9, atol=1e-9 * (1 + np.abs(harm).max())):
+                bad.append('beta_n=<P_n>/<P0> (window %d)' % w)
+                break
         if res.orders != list(range(0, order + 1, 1 if odd else 2)):
             bad.append('orders')
         for b in bad:
